@@ -61,18 +61,22 @@ theorem cwc_print (nl a n ty cont st) :
           | .error e => .error e
           | .ok (next, st2) => .ok (.print nl arg next, st2)) := rfl
 
-theorem cwc_letIn (x varTy bound body ty cont st) :
-    compileWithCont (.letIn x varTy bound body ty) cont st =
-      (match compileWithCont body cont st with
-        | .error e => .error e
-        | .ok (inStmt, st1) =>
-          if isCodata (compileTy varTy) st1.codataTypes then
-            match compile bound (compileTy varTy) st1 with
-            | .error e => .error e
-            | .ok (p, st2) =>
-              .ok (.cut (compileTy varTy) p (.mu .cns ⟨x, 0⟩ (compileTy varTy) inStmt), st2)
-          else
-            compileWithCont bound (.mu .cns ⟨x, 0⟩ (compileTy varTy) inStmt) st1) := rfl
+/-- terms/let.rs: the body of `compile_with_cont` after the capture guard -/
+def letCore (x : String) (varTy : Fun.Ty) (bound body : Fun.Term) : CwcFn := fun cont st =>
+  match compileWithCont body cont st with
+  | .error e => .error e
+  | .ok (inStmt, st1) =>
+    if isCodata (compileTy varTy) st1.codataTypes then
+      match compile bound (compileTy varTy) st1 with
+      | .error e => .error e
+      | .ok (p, st2) =>
+        .ok (.cut (compileTy varTy) p (.mu .cns ⟨x, 0⟩ (compileTy varTy) inStmt), st2)
+    else
+      compileWithCont bound (.mu .cns ⟨x, 0⟩ (compileTy varTy) inStmt) st1
+
+theorem cwc_letIn (x varTy bound body ty) :
+    compileWithCont (.letIn x varTy bound body ty) =
+      guarded [x] ty "let.rs: Let::compile_with_cont" (letCore x varTy bound body) := rfl
 
 theorem cwc_call (name args retTy cont st) :
     compileWithCont (.call name args retTy) cont st =
@@ -103,16 +107,21 @@ theorem cwc_dtor (scrutinee id tyArgs args ty cont st) :
             compileWithCont scrutinee
               (.xtor .cns ⟨id, 0⟩ (argsSnoc args' .cns cont) (compileTy t)) st1) := rfl
 
-theorem cwc_case (scrutinee tyArgs clauses ty cont st) :
-    compileWithCont (.case scrutinee tyArgs clauses ty) cont st =
-      (match compileClauses clauses
-          (if clausesLen clauses ≤ 1 || isLeaf cont then (cont, st) else share cont st).1
-          (if clausesLen clauses ≤ 1 || isLeaf cont then (cont, st) else share cont st).2 with
-        | .error e => .error e
-        | .ok (cs, st1) =>
-          match getType scrutinee with
-          | none => .error (noTy "case.rs: Case::compile_with_cont")
-          | some t => compileWithCont scrutinee (.xcase .cns (compileTy t) cs) st1) := rfl
+/-- terms/case.rs: the body of `compile_with_cont` after the capture guard -/
+def caseCore (scrutinee : Fun.Term) (clauses : Fun.Clauses) : CwcFn := fun cont st =>
+  match compileClauses clauses
+      (if clausesLen clauses ≤ 1 || isLeaf cont then (cont, st) else share cont st).1
+      (if clausesLen clauses ≤ 1 || isLeaf cont then (cont, st) else share cont st).2 with
+  | .error e => .error e
+  | .ok (cs, st1) =>
+    match getType scrutinee with
+    | none => .error (noTy "case.rs: Case::compile_with_cont")
+    | some t => compileWithCont scrutinee (.xcase .cns (compileTy t) cs) st1
+
+theorem cwc_case (scrutinee tyArgs clauses ty) :
+    compileWithCont (.case scrutinee tyArgs clauses ty) =
+      guarded (clausesNames clauses) ty "case.rs: Case::compile_with_cont (guard)"
+        (caseCore scrutinee clauses) := rfl
 
 theorem cwc_new (clauses ty cont st) :
     compileWithCont (.new clauses ty) cont st =
@@ -125,7 +134,7 @@ theorem cwc_new (clauses ty cont st) :
 
 theorem cwc_goto (target t ty cont st) :
     compileWithCont (.goto target t ty) cont st =
-      (match ty with
+      (match getType t with
         | none => .error (noTy "goto.rs: Goto::compile_with_cont")
         | some gty => compileWithCont t (.var .cns ⟨target, 0⟩ (compileTy gty)) st) := rfl
 
@@ -226,6 +235,21 @@ theorem c_goto (a t ty cty st) :
 theorem c_exit (t ty cty st) :
     compile (.exit t ty) cty st =
       defaultCompile (compileWithCont (.exit t ty)) cty st := rfl
+
+theorem guardedLvl_zero (binders ty site core cont st) :
+    guardedLvl binders ty site core 0 cont st =
+      .error (site ++ ": guard recursion exhausted (unreachable)") := rfl
+
+theorem guardedLvl_succ (binders ty site core n cont st) :
+    guardedLvl binders ty site core (n + 1) cont st =
+      (if bindersOccurFree binders cont then
+        match ty with
+        | none => .error (noTy site)
+        | some t =>
+          match defaultCompile (guardedLvl binders ty site core n) (compileTy t) st with
+          | .error e => .error e
+          | .ok (p, st1) => .ok (.cut (compileTy t) p cont, st1)
+      else core cont st) := rfl
 
 theorem defaultCompile_eq (cwc : CwcFn) (ty st) :
     defaultCompile cwc ty st =
